@@ -7,6 +7,7 @@ package main
 // A `frozen` obligation checks that no function outside package initialisation writes them.
 
 import (
+	"regexp"
 	"encoding/json"
 	"fmt"
 	"go/types"
@@ -494,7 +495,11 @@ func (p *Program) writersObligations(prop string) []*Oblig {
 		}
 		allowed := map[string]bool{}
 		for _, f := range ws.Funcs {
-			allowed[ws.Pkg+"."+f] = true
+			if regexp.MustCompile(`^[a-z]\w*\.[A-Za-z(]`).MatchString(f) {
+				allowed[f] = true // qualified with another package
+			} else {
+				allowed[ws.Pkg+"."+f] = true
+			}
 		}
 		name := fmt.Sprintf("%s.%s.%s#writers", ws.Pkg, ws.Type, ws.Field)
 		o := &Oblig{Name: name, Kind: "writers", Status: "unsat", Solver: "ssa-scan", Props: []string{prop}, Pos: ws.Line}
@@ -614,7 +619,11 @@ func (p *Program) writersObligations(prop string) []*Oblig {
 			o.Output = "field written outside its declared writers: " + strings.Join(bad, "; ")
 		}
 		for _, f := range ws.Funcs {
-			if p.funcs[ws.Pkg+"."+f] == nil {
+			fk := ws.Pkg + "." + f
+			if regexp.MustCompile(`^[a-z]\w*\.[A-Za-z(]`).MatchString(f) {
+				fk = f
+			}
+			if p.funcs[fk] == nil {
 				o.Status = "sat"
 				o.Output += fmt.Sprintf(" declared writer %s does not exist;", f)
 			}
